@@ -453,6 +453,70 @@ def exchange_worker(item):
     return acc
 
 
+def dynsub_worker(item):
+    """DM1 subscribers that unsubscribe (themselves / a neighbour) from inside the callback: every other subscriber still
+    receives that DM1, the next cycle reaches exactly those still registered"""
+    _k, dll, seed = item
+    acc = Acc()
+    for k in range(3):
+        for action in ('unsub_self', 'unsub_next', 'unsub_prev'):
+            sc = {'part': 'subscriber unsubscribes inside its callback', 'dll': dll, 'k': k, 'action': action}
+            p = Pair(dll)
+            try:
+                w = p.w
+                calls = []
+                reg = [True, True, True]
+                cbs = []
+                st = {'armed': True}
+
+                def make(j):
+                    def cb(sa, lamps, dtcs, ts):
+                        calls.append((w.now, j, len(dtcs)))
+                        if j == k and st['armed']:
+                            st['armed'] = False
+                            t = {'unsub_self': k, 'unsub_next': (k + 1) % 3, 'unsub_prev': (k - 1) % 3}[action]
+                            st['touched'] = t
+                            if reg[t]:
+                                p.rx.unsubscribe(cbs[t])
+                                reg[t] = False
+                    return cb
+                for j in range(3):
+                    cbs.append(make(j))
+                    p.rx.subscribe(cbs[j])
+                tx = j1939.Dm1(p.acas[0])
+                src = lambda: ({'pl': 1, 'awl': 0, 'rsl': 0, 'mil': 0}, [{'spn': 100, 'fmi': 3, 'oc': 1}])
+                tx.start_send(src, 0.1)
+                w.run_for(0.35)
+                tx.stop_send(src)
+                w.run_for(0.2)
+                cycles = sorted(set(round(t, 4) for (t, _j, _n) in calls) | set(round(t, 4) for (t, _sa, _l, _d) in p.got))
+                probs = []
+                if len(p.got) < 3:
+                    probs.append("HARNESS: fewer than 3 DM1 cycles observed")
+                for ci, tc in enumerate(sorted(set(round(t, 4) for (t, _sa, _l, _d) in p.got))):
+                    got = [sum(1 for (t, j, _n) in calls if j == jj and round(t, 4) == tc) for jj in range(3)]
+                    touched = st.get('touched')
+                    for jj in range(3):
+                        if ci == 0:
+                            if jj == touched and action != 'unsub_self':
+                                ok = got[jj] <= 1
+                            else:
+                                ok = got[jj] == 1
+                        else:
+                            ok = got[jj] == (1 if reg[jj] else 0)
+                        if not ok:
+                            probs.append("DM1 cycle %d: subscriber %d was called %d time(s)%s" % (
+                                ci, jj, got[jj], (" while subscriber %d unsubscribes inside its callback" % k) if ci == 0 else " (registered: %s)" % reg[jj]))
+                acc.case(repr(sc), outcome=len(probs))
+                if probs:
+                    acc.violation("a DM1 subscriber is not called exactly once per DM1 while another one unsubscribes inside its callback"
+                                  if 'HARNESS' not in probs[0] else probs[0], sc, None, probs[:3])
+            finally:
+                p.close()
+    acc.sample({'part': 'subscriber unsubscribes inside its callback', 'dll': dll})
+    return acc
+
+
 def tabB_copy(n):
     return [{'spn': 0x4000 + i, 'fmi': 17, 'oc': 9} for i in range(n)]
 
@@ -460,6 +524,8 @@ def tabB_copy(n):
 def worker(item):
     if item[0] == 'exchange':
         return exchange_worker(item)
+    if item[0] == 'dynsub':
+        return dynsub_worker(item)
     return {'dtc': dtc_worker, 'dm1': dm1_worker, 'dm22': dm22_worker, 'hist': hist_worker, 'overlap': overlap_worker}[item[0]](item)
 
 
@@ -503,6 +569,7 @@ def run(tier, seed):
             items.append(('overlap', dll, n, cycle, seed))
         for n in (1, 2, 3, 14, 15, 40):
             items.append(('exchange', dll, n, seed))
+        items.append(('dynsub', dll, seed))
     return run_check(PROP, tier, seed, 'exploration', items, worker, RULE, ASSUME,
                      bounds={'dtc_counts': '1..400' if not quick else counts, 'history_depth': 3 if quick else 4})
 
@@ -521,6 +588,10 @@ def replay(rec):
         a = overlap_worker(('overlap', sc['dll'], sc['dtc_count'], sc['cycle'], rec.get('seed', 0)))
     elif part == 'one Dm1 object sends and receives':
         a = exchange_worker(('exchange', sc['dll'], sc['dtc_count'], rec.get('seed', 0)))
+    elif part == 'subscriber unsubscribes inside its callback':
+        a0 = dynsub_worker(('dynsub', sc['dll'], rec.get('seed', 0)))
+        a = Acc()
+        a.violations = [v for v in a0.violations if v['scenario'] == sc]
     elif part == 'dm22':
         a = dm22_worker(('dm22', sc['spn_range'][0], sc['spn_range'][1], rec.get('seed', 0)))
     else:
